@@ -454,4 +454,35 @@ theorem walk_eq_spec (maxLen : Nat) (v : Bytes) : walk maxLen v = decodeSpecMax 
     rw [heq]
     exact tail_ok maxLen 9 st d pv hrel' h8 (by omega)
 
+/-! ### HuffmanEncodeLength -/
+
+theorem lenSum_le (s : Bytes) : (s.map (fun c => lenOf c.toNat)).sum ≤ 30 * s.length := by
+  induction s with
+  | nil => simp
+  | cons c s ih =>
+    have := (wf_sym c.toNat (UInt8.toNat_lt c)).2.1
+    simp only [List.map_cons, List.sum_cons, List.length_cons]
+    omega
+
+theorem encLen_fold (s : Bytes) (n : Nat) (h : n + 30 * s.length < 2 ^ 64) :
+    s.foldl (fun n c => encLenTerm n (lenOf c.toNat)) n = n + (s.map (fun c => lenOf c.toNat)).sum := by
+  induction s generalizing n with
+  | nil => simp
+  | cons c s ih =>
+    have hl := (wf_sym c.toNat (UInt8.toNat_lt c)).2.1
+    simp only [List.foldl_cons, List.map_cons, List.sum_cons, List.length_cons] at h ⊢
+    have e : encLenTerm n (lenOf c.toNat) = n + lenOf c.toNat := by
+      unfold encLenTerm
+      exact Nat.mod_eq_of_lt (by omega)
+    rw [e, ih _ (by omega)]
+    omega
+
+/-- `HuffmanEncodeLength` is `⌈Σ codeLen / 8⌉` (no uint64 wrap-around below 2^58 bytes) -/
+theorem goEncodeLen_eq (s : Bytes) (h : s.length < 2 ^ 58) : goEncodeLen s = encodeLen s := by
+  unfold goEncodeLen encodeLen
+  rw [encLen_fold s 0 (by omega), Nat.zero_add]
+  unfold encLenRound
+  have := lenSum_le s
+  rw [Nat.mod_eq_of_lt (by omega)]
+
 end MosnVerif.Lemmas.HuffWalk
